@@ -418,6 +418,12 @@ class CallGraph:
             if fn.attr in ("_call_fn", "_fn", "poll_callback", "_poll_callback"):
                 cs.kind = "dynamic"
                 return cs
+            # self.<slot>(...) where the constructor stores a parameter in that slot: a callable given to the object
+            if isinstance(fn.value, ast.Name) and fn.value.id in self.self_aliases(f) and f.cls is not None:
+                init = self.t.find_method(f.cls, "__init__")
+                if init is not None and any(isinstance(n, ast.Assign) and isinstance(n.value, ast.Name) and n.value.id in init.params() and any(isinstance(t, ast.Attribute) and t.attr == fn.attr and norm(t.value) == "self" for t in n.targets) for n in init.own_nodes()):
+                    cs.kind = "dynamic"
+                    return cs
             if self._is_external_object(fn.value, f):
                 # e.g. _PATTERN = re.compile(...); _PATTERN.match(s): a host-library object, not a repo class
                 cs.kind, cs.ext = "external", "extobj." + fn.attr
@@ -589,6 +595,13 @@ class CallGraph:
                     # closures returned by factory helpers (bound, eval_fn, ...)
                     if isinstance(n.value, ast.Name) and n.value.id in f.children:
                         self._reg(n.value, f, n.value.id, "returned")
+                    # instances of a host class with __call__ handed back as callable values
+                    if isinstance(n.value, ast.Call) and isinstance(n.value.func, ast.Name):
+                        ci = self._class_visible(n.value.func.id, f)
+                        if ci is not None:
+                            callm = self.t.find_method(ci, "__call__")
+                            if callm is not None:
+                                self.natives.setdefault(id(callm), (callm, ci.name, "returned-callable"))
 
     def _reg(self, e: ast.AST, f: Func, jsname: str, how: str) -> None:
         tf: Optional[Func] = None
